@@ -787,6 +787,76 @@ func ruleSkipFlags(c *Ctx) []Ob {
 		}
 		return true
 	})
+	// declared defaults exist only for types that have a default initialiser: the resolver records them (mem = val.Elem())
+	// strictly under the DefaultInitializer type assertion
+	if fn := c.SSA[pkgDefs].Func("DoResolveFields"); fn != nil {
+		found, good := false, true
+		for _, b := range fn.Blocks {
+			for _, ins := range b.Instrs {
+				call, ok := ins.(*ssa.Call)
+				if !ok || call.Call.StaticCallee() == nil || call.Call.StaticCallee().Name() != "InitDefault" && !(call.Call.IsInvoke()) {
+					continue
+				}
+			}
+		}
+		// find the value that FieldByIndex is called on (the defaults holder) and where it is defined
+		for _, b := range fn.Blocks {
+			for _, ins := range b.Instrs {
+				call, ok := ins.(*ssa.Call)
+				if !ok || call.Call.StaticCallee() == nil || call.Call.StaticCallee().Name() != "FieldByIndex" {
+					continue
+				}
+				found = true
+				// receiver: phi/alloc holding `mem`; every non-zero definition must be under the ok edge of the type assertion
+				var defs []ssa.Value
+				recv := call.Call.Args[0]
+				var collect func(v ssa.Value, seen map[ssa.Value]bool)
+				collect = func(v ssa.Value, seen map[ssa.Value]bool) {
+					if seen[v] {
+						return
+					}
+					seen[v] = true
+					switch x := v.(type) {
+					case *ssa.Phi:
+						for _, e := range x.Edges {
+							collect(e, seen)
+						}
+					case *ssa.UnOp:
+						if al, ok := x.X.(*ssa.Alloc); ok {
+							for _, r := range referrers(al) {
+								if st, ok := r.(*ssa.Store); ok && st.Addr == ssa.Value(al) {
+									collect(st.Val, seen)
+								}
+							}
+							return
+						}
+						defs = append(defs, v)
+					default:
+						defs = append(defs, v)
+					}
+				}
+				collect(recv, map[ssa.Value]bool{})
+				for _, d := range defs {
+					dc, ok := d.(*ssa.Call)
+					if !ok || dc.Call.StaticCallee() == nil || dc.Call.StaticCallee().Name() != "Elem" {
+						continue // the zero Value
+					}
+					under := false
+					for _, cd := range domConds(dc.Block()) {
+						if ex, ok := cd.V.(*ssa.Extract); ok && cd.Truth {
+							if ta, ok := ex.Tuple.(*ssa.TypeAssert); ok && ta.CommaOk && strings.HasSuffix(ta.AssertedType.String(), "DefaultInitializer") {
+								under = true
+							}
+						}
+					}
+					if !under {
+						good = false
+					}
+				}
+			}
+		}
+		s.check(found && good, "defaults-only-with-initialiser", c.Pos(fn.Pos()), "default values are recorded only for types implementing the default initialiser", "the resolver records default values for types without a default initialiser: zero-valued optional fields of such types would be dropped by the encoder")
+	}
 	for _, w := range []string{"f.CanSkipEncodeIfNil", "f.CanSkipIfDefault", "f.NoCopy", "f.Spec"} {
 		if !found[w] {
 			s.bad(strings.TrimPrefix(w, "f."), c.Pos(fd.Pos()), w+" is not assigned in fromDefsField")
